@@ -410,7 +410,7 @@ Proof.
   assert (CK : cur_key s = None) by (unfold cur_key; rewrite Cu; reflexivity).
   destruct (t_canceled t) eqn:Ca; cbn [fst snd].
   - apply inv_frame with (s := s) (k0 := k);
-      [exact I | cbn; lia | | | | | cbn; lia | cbn; tauto | ]; unfold put, with_objs, with_queue.
+      [exact I | cbn; lia | | | | | cbn; lia | cbn; tauto | ]; unfold put, with_objs, with_queue, dequeue.
     + intros j N. apply aget_aset_other. exact N.
     + intros j N. quiet_tac.
     + intros j N. cbn [queue]. apply zcount_remove_first_other. exact N.
@@ -428,7 +428,7 @@ Proof.
       * congruence.
       * intro O. trace_simp. specialize (ti_oneshot0 O). lia.
   - apply inv_frame with (s := s) (k0 := k);
-      [exact I | cbn; lia | | | | | cbn; lia | cbn; tauto | ]; unfold put, with_objs, with_queue, with_cur.
+      [exact I | cbn; lia | | | | | cbn; lia | cbn; tauto | ]; unfold put, with_objs, with_queue, with_cur, dequeue.
     + intros j N. apply aget_aset_other. exact N.
     + intros j N. quiet_tac.
     + intros j N. cbn [queue]. apply zcount_remove_first_other. exact N.
@@ -587,7 +587,7 @@ Proof.
   intro I. unfold fire_send.
   destruct (aget k (objs s)) as [t|] eqn:E; [|cbn [fst snd]; rewrite app_nil_r; exact I].
   destruct (t_tok t) eqn:Q; try (cbn [fst snd]; rewrite app_nil_r; exact I).
-  destruct (Z.of_nat (length (queue s)) <? qcap) eqn:D; [|cbn [fst snd]; rewrite app_nil_r; exact I].
+  destruct (Z.of_nat (length (queue s) - recvd s) <? qcap) eqn:D; [|cbn [fst snd]; rewrite app_nil_r; exact I].
   destruct (inv_some _ _ _ _ I E) as [T R]. cbn [fst snd].
   apply inv_frame with (s := s) (k0 := k);
     [exact I | cbn; lia | | | | | cbn; lia | cbn; tauto | ]; unfold put, with_objs, with_queue.
@@ -651,7 +651,7 @@ Qed.
 
 Lemma inv_step s tr x : Inv s tr -> Inv (fst (step s x)) (tr ++ snd (step s x)).
 Proof.
-  intro I. destruct x as [d rep a p|k| |k| | |dt|k|k]; cbn [step].
+  intro I. destruct x as [d rep a p|k| |k| | |dt|k|k| ]; cbn [step].
   - apply inv_create. exact I.
   - apply inv_cancel. exact I.
   - cbn [fst snd]. apply inv_frame with (s := s) (k0 := -1);
@@ -669,6 +669,8 @@ Proof.
   - cbn [fst snd]. rewrite app_nil_r. apply inv_ext with (s := s); auto; cbn; lia.
   - apply inv_fire_check. exact I.
   - apply inv_fire_send. exact I.
+  - unfold recv. destruct (recvd s <? length (queue s))%nat; cbn [fst snd]; rewrite app_nil_r; [|exact I].
+    apply inv_ext with (s := s); auto; cbn; lia.
 Qed.
 
 Lemma run_from_app xs : forall s ys,
@@ -729,7 +731,7 @@ Qed.
 
 Lemma shape_step s x : shape s (snd (step s x)).
 Proof.
-  destruct x as [d rep a p|k| |k| | |dt|k|k]; cbn [step].
+  destruct x as [d rep a p|k| |k| | |dt|k|k| ]; cbn [step].
   - constructor.
   - constructor.
   - constructor.
@@ -744,6 +746,7 @@ Proof.
     destruct (t_canceled t); [constructor|]. destruct (running s); constructor.
   - unfold fire_send. destruct (aget k (objs s)) as [t|]; [|constructor].
     destruct (t_tok t); try constructor. destruct (_ <? _); constructor.
+  - unfold recv. destruct (_ <? _)%nat; constructor.
 Qed.
 
 (* ================= the trace properties are preserved by every step ================= *)
@@ -886,7 +889,7 @@ Qed.
 
 Lemma running_step s x : running (fst (step s x)) = running s \/ In EStop (snd (step s x)).
 Proof.
-  destruct x as [d rep a p|k| |k| | |dt|k|k]; cbn [step].
+  destruct x as [d rep a p|k| |k| | |dt|k|k| ]; cbn [step].
   - left. reflexivity.
   - left. unfold cancel. cbn [fst]. destruct (aget k (objs s)) as [t|]; [destruct (t_reg t)|]; reflexivity.
   - right. left. reflexivity.
@@ -906,6 +909,7 @@ Proof.
     destruct (t_canceled t); [reflexivity|]. destruct (running s) eqn:Rn; cbn; exact Rn.
   - left. unfold fire_send. destruct (aget k (objs s)) as [t|]; [|reflexivity].
     destruct (t_tok t); try reflexivity. destruct (_ <? _); reflexivity.
+  - left. unfold recv. destruct (_ <? _)%nat; reflexivity.
 Qed.
 
 Lemma running_run_from xs : forall s,
@@ -939,17 +943,17 @@ Proof.
 Qed.
 
 Lemma fire_send_ok s k t :
-  aget k (objs s) = Some t -> t_tok t = Firing -> Z.of_nat (length (queue s)) < qcap ->
+  aget k (objs s) = Some t -> t_tok t = Firing -> Z.of_nat (length (queue s) - recvd s) < qcap ->
   fire_send s k = (put (with_queue s (queue s ++ [k])) k (set_tok Queued t), [EQueued k]).
 Proof.
   intros E Q L. unfold fire_send. rewrite E, Q.
-  destruct (Z.ltb_spec (Z.of_nat (length (queue s))) qcap); [reflexivity | lia].
+  destruct (Z.ltb_spec (Z.of_nat (length (queue s) - recvd s)) qcap); [reflexivity | lia].
 Qed.
 
 Lemma begin_ok s k t :
   cur s = None -> zmem k (queue s) = true -> aget k (objs s) = Some t -> t_canceled t = false ->
   begin_at s k =
-    (with_cur (put (with_queue s (remove_first k (queue s))) k (set_tok InCb t)) (Some (k, t_prog t)),
+    (with_cur (put (dequeue s k) k (set_tok InCb t)) (Some (k, t_prog t)),
      [ECb k (clock s) (t_args t)]).
 Proof. intros Cu M E Ca. unfold begin_at. rewrite Cu, M, E, Ca. reflexivity. Qed.
 
@@ -983,26 +987,26 @@ Lemma fire_and_begin s tr k t dl dt :
   dl <= clock s + Z.max 0 dt ->
   run_from s [SAdvance dt; SFireCheck k; SFireSend k; SBegin k] =
     (mkS (clock s + Z.max 0 dt) (running s) (next s) (aset k (set_tok InCb t) (objs s)) (queue s)
-         (Some (k, t_prog t)),
+         (Some (k, t_prog t)) (pred (recvd s)),
      [EQueued k; ECb k (clock s + Z.max 0 dt) (t_args t)]).
 Proof.
   intros I Cu Rn L E Ca Q D.
   destruct (inv_some _ _ _ _ I E) as [T _]. pose proof (ti_queue _ _ _ _ T) as Zq.
   rewrite Q in Zq. cbn [qcount] in Zq.
   cbn [run_from step].
-  set (s1 := mkS (clock s + Z.max 0 dt) (running s) (next s) (objs s) (queue s) (cur s)).
+  set (s1 := mkS (clock s + Z.max 0 dt) (running s) (next s) (objs s) (queue s) (cur s) (recvd s)).
   rewrite (fire_check_ok s1 k t dl) by (cbn; auto).
   set (s2 := put s1 k (set_tok Firing t)).
   rewrite (fire_send_ok s2 k (set_tok Firing t))
-    by (cbn [s2 s1 put with_objs objs queue]; auto; apply aget_aset_same).
+    by (cbn [s2 s1 put with_objs objs queue recvd]; auto; try apply aget_aset_same; lia).
   set (s3 := put (with_queue s2 (queue s2 ++ [k])) k (set_tok Queued (set_tok Firing t))).
   rewrite (begin_ok s3 k (set_tok Queued (set_tok Firing t))).
   2: exact Cu.
   2: { cbn [s3 s2 s1 put with_objs with_queue queue]. apply zmem_snoc. }
   2: { cbn [s3 put with_objs objs]. apply aget_aset_same. }
   2: exact Ca.
-  subst s3 s2 s1. unfold with_cur, put, with_queue, with_objs.
-  cbn [objs queue cur clock running next set_tok
+  subst s3 s2 s1. unfold with_cur, put, with_queue, with_objs, dequeue.
+  cbn [objs queue cur clock running next recvd set_tok
        t_dur t_period t_args t_prog t_canceled t_reg t_tok].
   rewrite !aset_aset, (remove_first_snoc _ _ Zq). reflexivity.
 Qed.
@@ -1108,7 +1112,7 @@ Proof.
   rewrite (fire_and_begin s tr k t dl d I Cu Rn Cap E Ca Q) in I4 by lia.
   cbn [fst snd] in *. rewrite M in *.
   set (s4 := mkS (clock s + d) (running s) (next s) (aset k (set_tok InCb t) (objs s)) (queue s)
-                 (Some (k, t_prog t))) in *.
+                 (Some (k, t_prog t)) (pred (recvd s))) in *.
   destruct (cb_loop k (length p) s4 _ (t_prog t) (set_tok InCb t) I4) as (A1 & A2 & A3 & A4 & A5 & A6);
     try reflexivity.
   - rewrite Pr. lia.
@@ -1214,7 +1218,7 @@ Proof.
   assert (R : forall j p, ~ In (ECb k c a) (snd (ret s j p))).
   { intros j p. unfold ret. destruct (aget j (objs s)) as [t|]; [|intros [H|[]]; discriminate].
     destruct (t_canceled t); [|destruct (0 <? t_period t)]; cbn [snd]; intros H; cbn in H; intuition discriminate. }
-  destruct x as [d rep a' p|j| |j| | |dt|j|j]; cbn [step].
+  destruct x as [d rep a' p|j| |j| | |dt|j|j| ]; cbn [step].
   - intros [H|[]]. discriminate.
   - intros [H|[]]. discriminate.
   - intros [H|[]]. discriminate.
@@ -1229,6 +1233,7 @@ Proof.
     destruct (t_canceled t); [intros []|]. destruct (running s); intros [].
   - unfold fire_send. destruct (aget j (objs s)) as [t|]; [|intros []].
     destruct (t_tok t); try (intros []). destruct (_ <? _); [|intros []]. intros [H|[]]. discriminate.
+  - unfold recv. destruct (_ <? _)%nat; intros [].
 Qed.
 
 (* ---- the harness' logical ops are step lists: every theorem above applies to them ---- *)
@@ -1505,7 +1510,7 @@ Qed.
 
 Lemma sorted_step s x : sorted (objs s) -> sorted (objs (fst (step s x))).
 Proof.
-  intro S. destruct x as [d rep a p|k| |k| | |dt|k|k]; cbn [step].
+  intro S. destruct x as [d rep a p|k| |k| | |dt|k|k| ]; cbn [step].
   - cbn. apply sorted_aset. exact S.
   - apply (qu_cancel s k). exact S.
   - exact S.
@@ -1521,6 +1526,7 @@ Proof.
   - exact S.
   - apply (qu_fire_check s k). exact S.
   - apply (qu_fire_send s k). exact S.
+  - unfold recv. destruct (_ <? _)%nat; exact S.
 Qed.
 
 Lemma sorted_run_from xs : forall s, sorted (objs s) -> sorted (objs (fst (run_from s xs))).
@@ -1781,8 +1787,7 @@ Proof.
     destruct (rel_get' _ _ _ _ _ R E) as (i & Ei & (H1 & H2 & H3 & H4)).
     pose proof (inv_begin s tr k I) as I1. pose proof (qu_begin s k) as Q1.
     rewrite (begin_ok s k t2 Cu M E Ca) in *. cbn [fst snd] in I1, Q1.
-    set (s1 := with_cur (put (with_queue s (remove_first k (queue s))) k (set_tok InCb t2))
-                        (Some (k, t_prog t2))) in *.
+    set (s1 := with_cur (put (dequeue s k) k (set_tok InCb t2)) (Some (k, t_prog t2))) in *.
     pose proof (rel_count s s1 tr m k i (clock s) (t_args t2) R Q1 Ei) as R1.
     set (m1 := aset k (mkM (m_rep i) (m_prog i) (m_cancelled i) (m_count i + 1)) m) in *.
     assert (Ln1 : (length (t_prog t2) <= n)%nat) by (rewrite <- H1; apply Ln; exact Ei).
@@ -1815,7 +1820,7 @@ Proof.
               exists t', aget k (objs (fst (create s0 d rep a p))) = Some t' /\ t_prog t' = t_prog t).
   { intros s0 d rep a p Ho Hn. unfold create. cbn [fst objs]. rewrite Ho, Hn.
     destruct (inv_some _ _ _ _ I E) as [_ Rk]. rewrite aget_aset_other by lia. eauto. }
-  destruct x as [d rep a p|j| |j| | |dt|j|j]; cbn [step].
+  destruct x as [d rep a p|j| |j| | |dt|j|j| ]; cbn [step].
   - apply C; reflexivity.
   - apply Q, qu_cancel.
   - cbn [fst objs]. eauto.
@@ -1831,6 +1836,7 @@ Proof.
   - cbn [fst objs]. eauto.
   - apply Q, qu_fire_check.
   - apply Q, qu_fire_send.
+  - unfold recv. destruct (_ <? _)%nat; cbn [fst objs]; eauto.
 Qed.
 
 Lemma prog_stable_run xs : forall s tr k t,
@@ -1904,7 +1910,12 @@ Proof.
   split; [auto|]. split; [reflexivity|]. intros j N. apply aget_aset_other. exact N.
 Qed.
 
-Definition pairf (k : Z) : list step_t := [SFireCheck k; SFireSend k].
+Definition pairf (k : Z) : list step_t := [SFireCheck k; SFireSend k; SRecv].
+
+Lemma recv_facts s :
+  snd (recv s) = [] /\ objs (fst (recv s)) = objs s /\
+  next (fst (recv s)) = next s /\ cur (fst (recv s)) = cur s.
+Proof. unfold recv. destruct (_ <? _)%nat; cbn; auto. Qed.
 
 Lemma pending_not_cancelled s tr m k t dl :
   Inv s tr -> Rel s tr m -> aget k (objs s) = Some t -> t_tok t = Pending dl ->
@@ -1933,7 +1944,7 @@ Proof.
     split; [constructor | intros j []].
   - inv ND. destruct (P k (or_introl eq_refl)) as (t & dl & E & Q).
     destruct (pending_not_cancelled _ _ _ _ _ _ I R E Q) as (i & Ei & NC).
-    change (pairf k ++ flat_map pairf ks) with (SFireCheck k :: SFireSend k :: flat_map pairf ks).
+    change (pairf k ++ flat_map pairf ks) with (SFireCheck k :: SFireSend k :: SRecv :: flat_map pairf ks).
     cbn [run_from step].
     destruct (fc_facts s k) as (F1 & F2 & F3).
     pose proof (inv_fire_check s tr k I) as I1.
@@ -1946,11 +1957,15 @@ Proof.
     destruct (fire_send s1 k) as [s2 e2]. cbn [fst snd] in *.
     assert (N2 : nocb e2) by (destruct G1 as [->| ->]; intros j c a X; cbn in X; intuition discriminate).
     specialize (R2 N2).
-    assert (P2 : forall j, In j ks -> exists t dl, aget j (objs s2) = Some t /\ t_tok t = Pending dl).
+    destruct (recv_facts s2) as (V1 & V2 & V3 & V4).
+    pose proof (inv_step s2 (tr ++ e2) SRecv I2) as I3.
+    cbn [step] in I3. destruct (recv s2) as [s2' e2']. cbn [fst snd] in *. subst e2'. rewrite app_nil_r in I3.
+    assert (R3 : Rel s2' (tr ++ e2) m) by (apply rel_ext with (s := s2); auto).
+    assert (P2 : forall j, In j ks -> exists t dl, aget j (objs s2') = Some t /\ t_tok t = Pending dl).
     { intros j Hj. assert (j <> k) by (intro; subst; contradiction).
-      rewrite G3, F3 by assumption. apply P. right. exact Hj. }
-    destruct (IH s2 _ m I2 R2 H2 P2) as (A1 & A2 & A3 & A4 & A5).
-    destruct (run_from s2 (flat_map pairf ks)) as [s3 e3]. cbn [fst snd app] in *.
+      rewrite V2, G3, F3 by assumption. apply P. right. exact Hj. }
+    destruct (IH s2' _ m I3 R3 H2 P2) as (A1 & A2 & A3 & A4 & A5).
+    destruct (run_from s2' (flat_map pairf ks)) as [s3 e3]. cbn [fst snd app] in *.
     split; [congruence|]. split; [rewrite app_assoc; exact A2|].
     split; [apply nocb_app; assumption|]. rewrite queued_of_app.
     destruct G1 as [->| ->]; cbn [queued_of app].
@@ -1975,9 +1990,9 @@ Proof.
   intros I R S. unfold settle_steps.
   set (ks := map fst (pending (objs s))).
   set (a := fold_right Z.max (clock s) (map snd (pending (objs s))) - clock s).
-  change (flat_map (fun k => [SFireCheck k; SFireSend k]) ks) with (flat_map pairf ks).
+  change (flat_map (fun k => [SFireCheck k; SFireSend k; SRecv]) ks) with (flat_map pairf ks).
   cbn [run_from step].
-  set (s1 := mkS (clock s + Z.max 0 a) (running s) (next s) (objs s) (queue s) (cur s)).
+  set (s1 := mkS (clock s + Z.max 0 a) (running s) (next s) (objs s) (queue s) (cur s) (recvd s)).
   assert (I1 : Inv s1 tr).
   { pose proof (inv_step s tr (SAdvance a) I) as X. cbn [step fst snd] in X. rewrite app_nil_r in X. exact X. }
   assert (R1 : Rel s1 tr m) by (apply rel_ext with (s := s); auto).
@@ -2001,6 +2016,23 @@ Proof.
   unfold prog_len. rewrite E, H1. lia.
 Qed.
 
+Lemma create_n_ok d rep a n : forall s tr m,
+  Inv s tr -> Rel s tr m ->
+  Rel (fst (run_from s (repeat (SCreate d rep a []) n)))
+      (tr ++ snd (run_from s (repeat (SCreate d rep a []) n))) (m_create_n n m d rep) /\
+  cur (fst (run_from s (repeat (SCreate d rep a []) n))) = cur s.
+Proof.
+  induction n as [|n IH]; intros s tr m I R; cbn [repeat run_from m_create_n].
+  - cbn [fst snd]. rewrite app_nil_r. auto.
+  - cbn [step]. pose proof (inv_create s tr d rep a [] I) as I1.
+    pose proof (rel_create s tr m d rep a [] I R) as R1.
+    assert (C1 : cur (fst (create s d rep a [])) = cur s) by reflexivity.
+    destruct (create s d rep a []) as [s1 e1]. cbn [fst snd] in *.
+    destruct (IH s1 _ _ I1 R1) as (A1 & A2).
+    destruct (run_from s1 (repeat (SCreate d rep a []) n)) as [s2 e2]. cbn [fst snd] in *.
+    rewrite app_assoc. split; [exact A1 | congruence].
+Qed.
+
 (* the monitor accepts everything the model does, from every reachable idle state *)
 Lemma monitor_exec ops : forall s tr m,
   Inv s tr -> Rel s tr m -> cur s = None -> sorted (objs s) ->
@@ -2009,13 +2041,20 @@ Proof.
   induction ops as [|o r IH]; intros s tr m I R Cu Srt; rewrite exec_from_obs; [reflexivity|].
   pose proof (inv_run_from (compile s o) s tr I) as I1.
   pose proof (sorted_run_from (compile s o) s Srt) as S1.
-  destruct o as [d rep a p|k| |g|k|]; cbn [compile obs_of monitor_from] in *.
+  destruct o as [d rep a p|n d rep a|ms|k| |g|k|]; cbn [compile obs_of monitor_from] in *.
   - (* create *)
     cbn [run_from] in *. destruct (create s d rep a p) as [s1 e1] eqn:C. cbn [step fst snd] in *.
     rewrite C in *. cbn [fst snd] in *. rewrite app_nil_r in *.
     apply IH; auto.
     + pose proof (rel_create s tr m d rep a p I R) as X. rewrite C in X. exact X.
     + unfold create in C. inv C. exact Cu.
+  - (* create n *)
+    destruct (create_n_ok d rep a (Z.to_nat n) s tr m I R) as (A1 & A2).
+    destruct (run_from s (repeat (SCreate d rep a []) (Z.to_nat n))) as [s1 e1]. cbn [fst snd] in *.
+    apply IH; auto. congruence.
+  - (* stall *)
+    cbn [run_from step fst snd] in *. rewrite app_nil_r in *.
+    apply IH; auto.
   - (* cancel *)
     cbn [run_from] in *. destruct (cancel s k) as [s1 e1] eqn:C. cbn [step fst snd] in *.
     rewrite C in *. cbn [fst snd] in *. rewrite app_nil_r in *.
@@ -2081,4 +2120,93 @@ Proof.
   pose proof (oneshot_once xs k clk d rep a0 C2 R) as U.
   rewrite E, count_cb_app in U. cbn [count_cb] in U. rewrite Z.eqb_refl in U.
   pose proof (count_cb_nonneg k t1). pose proof (count_cb_nonneg k t2). lia.
+Qed.
+
+(* ====================================================================================
+   At and beyond queue capacity: the channel never holds more than qcap expiries, a sender
+   blocked on a full channel is not lost - it delivers as soon as the owner receives one.
+   ==================================================================================== *)
+
+Lemma length_remove_first_in k q :
+  zmem k q = true -> length (remove_first k q) = pred (length q) /\ (0 < length q)%nat.
+Proof.
+  induction q as [|y r IH]; cbn [zmem existsb remove_first length]; [discriminate|].
+  fold (zmem k r). destruct (Z.eqb k y); cbn [orb]; intro H; [split; [reflexivity | lia]|].
+  destruct (IH H) as [A B]. cbn [length]. rewrite A. split; lia.
+Qed.
+
+Lemma queue_cancel s k : queue (fst (cancel s k)) = queue s /\ recvd (fst (cancel s k)) = recvd s.
+Proof. unfold cancel. cbn [fst]. destruct (aget k (objs s)) as [t|]; [destruct (t_reg t)|]; auto. Qed.
+
+Lemma queue_ret s k p : queue (fst (ret s k p)) = queue s /\ recvd (fst (ret s k p)) = recvd s.
+Proof.
+  unfold ret. destruct (aget k (objs s)) as [t|]; [|auto].
+  destruct (t_canceled t); [|destruct (0 <? t_period t)]; auto.
+Qed.
+
+Lemma occupancy_begin s k : occupancy (fst (begin_at s k)) <= occupancy s.
+Proof.
+  unfold begin_at, occupancy. destruct (cur s); [cbn [fst]; lia|].
+  destruct (zmem k (queue s)) eqn:M; [|cbn [fst]; lia].
+  destruct (length_remove_first_in _ _ M) as [A B].
+  destruct (aget k (objs s)) as [t|]; [destruct (t_canceled t)|];
+    cbn [fst put with_objs with_cur dequeue queue recvd]; rewrite A; lia.
+Qed.
+
+Lemma occupancy_step s x : occupancy s <= qcap -> occupancy (fst (step s x)) <= qcap.
+Proof.
+  intro H. destruct x as [d rep a p|k| |k| | |dt|k|k| ]; cbn [step].
+  - exact H.
+  - unfold occupancy in *. destruct (queue_cancel s k) as [-> ->]. exact H.
+  - exact H.
+  - pose proof (occupancy_begin s k). lia.
+  - destruct (queue s) as [|k q] eqn:Q; [exact H|]. pose proof (occupancy_begin s k). lia.
+  - unfold cb_step. destruct (cur s) as [[k acts]|]; [|exact H]. unfold occupancy in *.
+    destruct acts as [|[|j|d rep a p|] r].
+    + destruct (queue_ret s k false) as [-> ->]. exact H.
+    + destruct (queue_cancel (with_cur s (Some (k, r))) k) as [-> ->]. exact H.
+    + destruct (queue_cancel (with_cur s (Some (k, r))) j) as [-> ->]. exact H.
+    + exact H.
+    + destruct (queue_ret s k true) as [-> ->]. exact H.
+  - exact H.
+  - unfold fire_check. destruct (aget k (objs s)) as [t|]; [|exact H].
+    destruct (t_tok t); try exact H. destruct (_ <=? _); [|exact H].
+    destruct (t_canceled t); [|destruct (running s)]; exact H.
+  - unfold fire_send. destruct (aget k (objs s)) as [t|]; [|exact H].
+    destruct (t_tok t); try exact H.
+    destruct (Z.ltb_spec (Z.of_nat (length (queue s) - recvd s)) qcap) as [L|L]; [|exact H].
+    unfold occupancy. cbn [fst put with_objs with_queue queue recvd]. rewrite app_length. cbn [length]. lia.
+  - unfold recv, occupancy in *. destruct (_ <? _)%nat; cbn [fst queue recvd]; lia.
+Qed.
+
+Lemma occupancy_run_from xs : forall s, occupancy s <= qcap -> occupancy (fst (run_from s xs)) <= qcap.
+Proof.
+  induction xs as [|x r IH]; intros s H; cbn [run_from]; [exact H|].
+  pose proof (occupancy_step s x H) as H1. destruct (step s x) as [s1 e1]. cbn [fst] in H1.
+  specialize (IH s1 H1). destruct (run_from s1 r) as [s2 e2]. exact IH.
+Qed.
+
+Lemma channel_bounded xs : occupancy (final xs) <= qcap.
+Proof. apply occupancy_run_from. unfold occupancy, qcap. cbn. lia. Qed.
+
+(* an AfterFunc goroutine blocked on the full channel delivers once the owner receives *)
+Lemma blocked_send_delivers xs k t :
+  aget k (objs (final xs)) = Some t -> t_tok t = Firing ->
+  (recvd (final xs) < length (queue (final xs)))%nat ->
+  trace (xs ++ [SRecv; SFireSend k]) = trace xs ++ [EQueued k].
+Proof.
+  intros E Q L. rewrite trace_app. pose proof (channel_bounded xs) as B. unfold occupancy in B.
+  cbn [run_from step]. unfold recv.
+  destruct (Nat.ltb_spec (recvd (final xs)) (length (queue (final xs)))) as [_|X]; [|lia].
+  set (s1 := mkS _ _ _ _ _ _ _).
+  rewrite (fire_send_ok s1 k t) by (cbn [s1 objs queue recvd]; auto; lia). reflexivity.
+Qed.
+
+(* ... and without a free slot it stays blocked: nothing is dropped, nothing is delivered *)
+Lemma full_channel_blocks s k :
+  occupancy s = qcap -> fire_send s k = (s, []).
+Proof.
+  unfold occupancy, fire_send. intro H. destruct (aget k (objs s)) as [t|]; [|reflexivity].
+  destruct (t_tok t); try reflexivity.
+  destruct (Z.ltb_spec (Z.of_nat (length (queue s) - recvd s)) qcap); [lia | reflexivity].
 Qed.
